@@ -151,11 +151,17 @@ FPerson.teaches = Teaches(FPerson, "teaches")
 FPerson.taught_by = TaughtBy(FPerson, "taught_by")
 
 @dataclass(eq=False)
-class GRegion(Symbol):
-    """Geo model for C15: located_in is transitive and has no inverse; directly_in is a sub-property of it."""
+class GPlace(Symbol):
+    """The base class declares only the SUB-property (directly_in); the field of its super-property (located_in) exists on the
+    subclass GRegion only - every geo instance is a GRegion, so every instance has both."""
     name: str = ""
-    located_in: List[GRegion] = field(default_factory=list)
     directly_in: List[GRegion] = field(default_factory=list)
+
+
+@dataclass(eq=False)
+class GRegion(GPlace):
+    """Geo model for C15: located_in is transitive and has no inverse; directly_in is a sub-property of it."""
+    located_in: List[GRegion] = field(default_factory=list)
 
 
 @dataclass(eq=False)
@@ -174,6 +180,6 @@ class DirectlyIn(LocatedIn):
 
 
 GRegion.located_in = LocatedIn(GRegion, "located_in")
-GRegion.directly_in = DirectlyIn(GRegion, "directly_in")
+GPlace.directly_in = DirectlyIn(GPlace, "directly_in")
 
 HIER = {"Base": Base, "Mid": Mid, "Leaf": Leaf, "Other": Other, "DA": DA, "DB1": DB1, "DB2": DB2, "DD": DD}
